@@ -56,8 +56,11 @@ def dense(rng, raster, tmax=None, nmin=0):
 
 
 class FGen(seqgen.Gen):
-    def __init__(self, *a, **kw):
+    def __init__(self, *a, twins=False, **kw):
         super().__init__(*a, **kw)
+        # twins: re-used connected events may be rescaled by 1 + 2e-8 -> same [GRADIENTS] line, different first/last
+        # (legitimate for C01; excluded for C02's fixed point: KF-15)
+        self.twins = twins
         self.gr = self.sys.grad_raster_time
         self.rfr = self.sys.rf_raster_time
         self.br = self.sys.block_duration_raster
@@ -281,9 +284,16 @@ class FGen(seqgen.Gen):
                 cands = [e for e in self.pool if float(e.first) == f and (D is None or abs(e.shape_dur - D) < 1e-12)
                          and (not final or float(e.last) == 0)]
                 if cands and r.random() < 0.75:
-                    e = r.choice(cands)
-                    reuse[ch] = e
+                    e = copy.deepcopy(r.choice(cands))
                     D = float(e.shape_dur)
+                    if self.twins and r.random() < 0.35:
+                        sc = 1 + r.choice([2e-8, -3e-8, 5e-8])
+                        e.waveform = np.asarray(e.waveform, dtype=float) * sc
+                        e.first, e.last = float(e.first) * sc, float(e.last) * sc
+                        if hasattr(e, 'area'):
+                            e.area = e.area * sc
+                        self.n_twins = getattr(self, 'n_twins', 0) + 1
+                    reuse[ch] = e
         plan = {}
         for attempt in range(2):
             plan = {}
@@ -375,6 +385,7 @@ def random_sequence(rng, system=None, n_blocks=None, use_block_cache=True, **kw)
             pass
     random_definitions(rng, seq)
     seq._gen_reused = getattr(g, 'n_reused', 0)
+    seq._gen_twins = getattr(g, 'n_twins', 0)
     return seq, stored, system
 
 
@@ -466,7 +477,8 @@ def rand_def_value(rng):
             return tuple(vals)
         return np.array([float(v) for v in vals], dtype=float)
     if u < 0.65:
-        return [rng.choice(WORDS[:8]), rand_int(rng)] if rng.random() < 0.5 else [rng.choice(WORDS[:8]), rng.choice(WORDS[:8])]
+        w = ['gre', 'epi', 'TE', 'ms', 'scanner', '3T']            # text pieces (never numeric-looking)
+        return [rng.choice(w), rand_int(rng)] if rng.random() < 0.5 else [rng.choice(w), rng.choice(w)]
     return rand_string(rng)
 
 
@@ -479,3 +491,25 @@ def random_definitions(rng, seq):
         seq.set_definition('FOV', [rng.choice([0.25, 0.256, 0.2200001]), 0.25, rng.choice([0.003, 0.0030000004])])
     for key in rng.sample(DEF_KEYS[1:], rng.choice([0, 1, 2, 3, 5])):
         seq.set_definition(key, rand_def_value(rng))
+
+
+def used_reader(rng, sysr, tmpdir):
+    """a reading Sequence object with prior content: it has already read another file (written by another system,
+    holding labels / triggers / gradients / RF) or has been built with add_block before it reads the file under test"""
+    import os
+    import pypulseq as pp
+    s2 = pp.Sequence(sysr, use_block_cache=rng.random() < 0.6)
+    if rng.random() < 0.6:
+        primer, n, _ = random_sequence(rng, n_blocks=rng.randint(2, 5))
+        if n:
+            fn = os.path.join(tmpdir, 'primer.seq')
+            primer.write(fn, create_signature=False, check_timing=False)
+            s2.read(fn)
+    else:
+        g = FGen(rng, sysr)
+        for _ in range(rng.randint(1, 4)):
+            try:
+                s2.add_block(*g.free_block())
+            except Exception:  # noqa: BLE001
+                pass
+    return s2
